@@ -652,7 +652,12 @@ func (vm *VM) run() (Addr, bool) {
 				// An invalid reflect.Value represents a nil interface value.
 				cond = !vm.general(a).IsValid()
 			case ConditionNil, ConditionNotNil:
-				cond = vm.general(a).IsNil()
+				v := vm.general(a)
+				if c, ok := v.Interface().(*callable); ok {
+					cond = c.isNil()
+				} else {
+					cond = v.IsNil()
+				}
 			case ConditionEqual, ConditionNotEqual:
 				x := vm.general(a)
 				y := vm.generalk(c, op < 0)
